@@ -51,7 +51,7 @@ func dispFilter(prop string, fs []Finding) []Finding {
 				out = append(out, f)
 			}
 		case "C11":
-			if c == "not-reverse-creation-order" || c == "singleton-closed-before-scope" || c == "ancestor-closed-before-descendant" {
+			if c == "not-reverse-creation-order" || c == "singleton-closed-before-scope" || c == "ancestor-closed-before-descendant" || c == "dependency-closed-while-dependent-open" {
 				out = append(out, f)
 			}
 		}
@@ -69,6 +69,7 @@ func dispOracle(prop string) func(e *Env, s *vsched.Sched, h []Op) []Finding {
 		fs = append(fs, e.DisposalOracle(true)...)
 		if prop == "C11" {
 			fs = append(fs, e.OrderOracle()...)
+			fs = append(fs, e.HeldOpenOracle()...)
 		}
 		return dispFilter(prop, fs)
 	}
@@ -121,7 +122,11 @@ func dispScenarios(prop string) []*Scenario {
 	mk := func(name string, init bool, threads ...[]Op) *Scenario {
 		return &Scenario{Name: prop + "-conc/" + name, Spec: dispSpec(init), Setup: setup, Threads: threads, Final: final}
 	}
+	pop := &Scenario{Name: prop + "-conc/get-multi-vs-close-populated-scope", Spec: dispSpec(false),
+		Setup:   []Op{{Kind: "scope", Bind: "s1", Ctx: "cancel"}, {Kind: "get", Scope: "s1", T: "D2"}, {Kind: "get", Scope: "s1", T: "IB"}},
+		Threads: [][]Op{{{Kind: "get", Scope: "s1", T: "D5"}}, {{Kind: "close", Scope: "s1"}}}, Final: final}
 	return []*Scenario{
+		pop,
 		mk("get-scoped-vs-close-scope", false, []Op{{Kind: "get", Scope: "s1", T: "D2"}}, []Op{{Kind: "close", Scope: "s1"}}),
 		mk("get-multi-vs-close-scope", false, []Op{{Kind: "get", Scope: "s1", T: "D5"}}, []Op{{Kind: "close", Scope: "s1"}}),
 		mk("get-transient-vs-cancel", false, []Op{{Kind: "get", Scope: "s1", T: "D3"}}, []Op{{Kind: "cancel", Scope: "s1"}}),
@@ -142,7 +147,7 @@ func registerDisp(prop, rule string) {
 			for _, c := range dispHistCfgs(prop, tier) {
 				jobs = append(jobs, c.jobs()...)
 			}
-			if prop == "C10" {
+			{
 				pb := 2
 				if tier == "thorough" {
 					pb = 3
@@ -150,6 +155,10 @@ func registerDisp(prop, rule string) {
 				for _, sc := range dispScenarios(prop) {
 					sc := sc
 					o := dispOracle(prop)
+					if prop == "C11" {
+						// under schedules only the held-open consequence is decidable (late arrivals are unordered)
+						o = func(e *Env, s *vsched.Sched, h []Op) []Finding { return dispFilter(prop, e.HeldOpenOracle()) }
+					}
 					jobs = append(jobs, mc.Job{Name: sc.Name, Weight: 50, Run: func(r *mc.Report) {
 						exploreScenario(r, sc, mc.Bounds{Preempt: pb}, func(e *Env, s *vsched.Sched) []Finding { return o(e, s, nil) })
 					}})
@@ -162,7 +171,7 @@ func registerDisp(prop, rule string) {
 
 func init() {
 	registerDisp("C10", "histories: every sequence to depth 5 (quick) / 6 (thorough) over {CreateScope(provider|scope), resolutions of scoped / transient / second output of a two-output constructor / disposables registered under interface types without Close (alias, interface-typed return) / singleton, Close(scope|provider), cancel} on <=3 scopes of an all-disposable container (with and without scope initializers), completed by closing the provider; fault positions: every constructor x invocation 1..2(3) x {returns error, panics} during Build, scope creation and resolution, over every history to depth 3/4; schedules: Resolve||Close(scope), Resolve||cancel, Resolve||Close(provider), CreateScope-with-initializers||Close, all schedules with <=2/3 preemptions. Oracle at the end of every execution: every container-created disposable closed exactly once, not before a Close/cancel of its owner, an ancestor or the provider started (or the creation that made it failed); non-disposables untouched. An outcome is the canonical observation string of one execution.")
-	registerDisp("C11", "same histories as C10 without faults (the property quantifies over configurations and histories, not schedules); oracle on the global stamp sequence: within one owner (each scope; the singleton set) close order is exactly reverse creation order; every close in a descendant scope precedes every own-instance close of its ancestor; every scope-owned close (root scope included) precedes every singleton close.")
+	registerDisp("C11", "same histories as C10 without faults; oracle on the global stamp sequence: within one owner (each scope; the singleton set) close order is exactly reverse creation order; every close in a descendant scope precedes every own-instance close of its ancestor; every scope-owned close (root scope included) precedes every singleton close; no disposable is closed while a still-open established disposable that received it exists. The property quantifies over configurations and histories; beyond it, the last clause (the stated consequence) is also checked on every schedule (bound 2/3) of the C10 overlap scenarios Resolve||Close(scope|provider), Resolve||cancel, CreateScope-with-initializers||Close, where 'established' means that the operation which constructed the instance completed successfully, or a completed operation handed it out - late arrivals the container refuses and disposes itself are not ordered.")
 	mc.Register(&mc.Check{
 		Prop: "C12", MinOutcomes: 10,
 		Rule:   "fault sequences: a tree of 4 scopes (provider > s1 > {s2, s3}) owning up to 8 disposables (2 singletons, scoped + transient per scope; every subset of the 6 resolutions performed, so that scopes owning nothing occur): every subset (all 256 when everything is resolved, all subsets for <=4 scope-owned instances, singles and pairs otherwise) of the Close methods failing x every node closed first, then the same node again, then the provider twice; schedules: 2 and 3 concurrent Close on one scope, Close || cancel, Close(child) || Close(parent) || Close(provider), bound 2/3, with failing instances. Oracle: every owned instance attempted exactly once; the first Close returns a DisposalError iff a failing instance is in its subtree, every injected error is reachable from exactly one returned error (none for closes done by the cancellation watcher), repeated / losing Closes return nil.",
